@@ -374,6 +374,31 @@ pub fn run(ctx: &mut Ctx) -> Result<(), Violation> {
     });
     ctx.stage("hand-written-graphs", true, r)?;
 
+    // every undirected simple graph on 4 vertices (64) x -a, each edge written in a varying direction
+    let r = par_exhaustive(ctx, 64 * 2, |i, st| {
+        let g = i % 64;
+        let names = ["a", "x1", "v_a", "n'"];
+        let pairs = [(0usize, 1usize), (0, 2), (0, 3), (1, 2), (1, 3), (2, 3)];
+        let mut edges = Vec::new();
+        for (bit, (p, q)) in pairs.iter().enumerate() {
+            if (g >> bit) & 1 == 1 {
+                if (g + bit as u64) % 2 == 0 {
+                    edges.push((names[*p].to_string(), names[*q].to_string()));
+                } else {
+                    edges.push((names[*q].to_string(), names[*p].to_string()));
+                }
+            }
+        }
+        let c = Case {
+            edges,
+            undirected: true,
+            all: i / 64 == 1,
+        };
+        record(&c, st);
+        check_case(&c, false)
+    });
+    ctx.stage("all-undirected-graphs-on-4-vertices-x-all-flag", true, r)?;
+
     if ctx.tier == Tier::Thorough {
         let r = par_exhaustive(ctx, 512 * 4, |i, st| {
             let g = i % 512;
